@@ -393,6 +393,19 @@ func (env *CEnv) evalCall(x *ast.CallExpr) (Value, types.Type) {
 				}
 			}
 			return oe.eval(x.Args[0])
+		case "was":
+			// was(e): e over the pre-state heap, with the present values of variables and results
+			if env.old == nil {
+				cfail("was() not available here")
+			}
+			mixed := *env.old
+			mixed.vars = env.s.vars
+			mixed.assumes = env.s.assumes
+			me := env.withState(&mixed)
+			v, t := me.eval(x.Args[0])
+			// facts added while evaluating belong to the current path
+			env.s.assumes = mixed.assumes
+			return v, t
 		case "len", "cap":
 			v, t := env.eval(x.Args[0])
 			switch u := t.Underlying().(type) {
@@ -508,6 +521,14 @@ func (env *CEnv) evalCall(x *ast.CallExpr) (Value, types.Type) {
 				cfail("unknown type %s", tn)
 			}
 			return c.fromInterface(env.s, asInt(v), t), t
+		case "externtype":
+			// externtype(x): the dynamic type of x is declared outside the module (e.g. the error types of fmt / errors)
+			v, _ := env.eval(x.Args[0])
+			if _, ok := c.decls["ty.extern"]; !ok {
+				c.declare("ty.extern", sInt)
+				c.typeIDs["ty.extern"] = nil
+			}
+			return BoolV{and(not(eq(asInt(v), "0")), eq(c.typeOfTerm(asInt(v)), "ty.extern"))}, tBool
 		case "seqeq":
 			a, at := env.eval(x.Args[0])
 			b, _ := env.eval(x.Args[1])
